@@ -125,7 +125,7 @@ _metaB("C18", "C18", "Timed profile: token buckets of several (rate, burst) pair
 CHECKS["C06"] = {
     "stages": [
         A("thpool", "pool1", name="controlled", cases={"quick": 1500, "thorough": 60000}),
-        A("thpool_race", "race1", name="race", cases={"quick": 60, "thorough": 1500}, libs=("lib-tsan",)),
+        A("thpool_race", "race1", name="race", cases={"quick": 60, "thorough": 1500}, libs=("lib-tsan",), gate_tries=10, gate_need=1),
     ],
     "key_classes": ["preempted", "spurious-wakeup", "flags=2", "flags=3"],
     "assumptions": [
@@ -146,7 +146,7 @@ META["C06"] = {
 CHECKS["C14"] = {
     "stages": [
         A("foreign", "foreign1", name="foreign", cases={"quick": 120, "thorough": 3000}, exhaustive_stage=True),
-        A("ctxrace", "ctxrace1", name="independence", cases={"quick": 40, "thorough": 1200}, libs=("lib-tsan",)),
+        A("ctxrace", "ctxrace1", name="independence", cases={"quick": 40, "thorough": 1200}, libs=("lib-tsan",), gate_tries=10, gate_need=1),
     ],
     "key_classes": ["loops-overlapped", "B-own-ctx", "B-no-ctx"],
     "assumptions": [
